@@ -79,6 +79,25 @@ CHECKS["C07"] = dict(
     note="Trusted: f64 brute force, similarity threshold 1.0 in part 1 (similarity hits are approximate by design). Depth 4 quick / 5 thorough.",
 )
 
+CHECKS["C05"] = dict(
+    engine="schedmc", category="model_checking", design_ref="DESIGN.md 3.5",
+    technique="stateless preemption-bounded exhaustive schedule exploration (CHESS style) of real engine threads under a controlled scheduler, with a brute-force linearizability checker over the recorded call/return history",
+    text="Two- and three-thread programs (writer: insert / delete / overwrite pair / insert-delete / delete-insert; other: point read, read with metadata, bulk read, existence probe, cache-aware read, read pairs, competing writes) run as real OS threads on a fresh TieredEngine from four initial states; the scheduler owns every lock acquisition (parking_lot replaced by pl-shim) and enumerates every schedule with at most 1 (quick) / 2 (thorough) preemptions. Each execution's history is checked per document by brute force against a sequential map, reads with metadata must pair vector and metadata of one write, and a sequential epilogue (reads, forced drain, reads) must equal the final state of some linearization and be unchanged by the drain.",
+    note="Trusted: pl-shim lock model, scheduling points = lock acquisitions (atomics not interleaved), the boolean returned by delete and writes that return Err are not constrained (the property speaks about reads). Known finding: drain resurrects a document after insert||delete.",
+)
+CHECKS["C08"] = dict(
+    engine="schedmc", category="model_checking", design_ref="DESIGN.md 3.8",
+    technique="stateless preemption-bounded exhaustive schedule exploration of real threads under a writer-preferring RwLock model; deadlock = unfinished threads with none enabled; triples derived from lock-order cycles",
+    text="Every unordered pair of a 17-operation TieredEngine catalogue from four initial states, writer pairs/triples on a persistent engine with a full index + tombstone (compaction path) and with a snapshot after every write, and every multiset of three operations of the HotTier / VectorCache / QueryHashCache / LearnedCacheStrategy catalogues are executed as real threads; all schedules with <= 1 (quick) / 2 (thorough) preemptions (2 for component triples) are enumerated; any state in which some thread is unfinished and none is enabled is a deadlock. Single-operation lock traces give the lock-order graph; opposite orders generate extra engine-level triples.",
+    note="Trusted: pl-shim's model of parking_lot's RwLock (writer claims the bit, readers queue behind it), scheduling points = lock acquisitions; rayon/tokio helper threads are not scheduled; the Spin stage of the design was not built (triples come from the lock-order graph instead).",
+)
+CHECKS["C09"] = dict(
+    engine="schedmc", category="model_checking", design_ref="DESIGN.md 3.9",
+    technique="stateless preemption-bounded exhaustive schedule exploration of writer threads racing snapshot threads on a real persistent HnswBackend; oracle recover(dir) == final live dump",
+    text="Programs of one or two writer threads (insert, overwrite, delete, metadata update, batch delete; with automatic snapshot triggers, rotation threshold 1 byte, capacity 3 or 64) against one or two threads calling create_snapshot once or twice; every schedule with <= 1 (quick) / 2 (thorough) preemptions; after all calls returned the live dump is taken, the backend dropped and strict recovery must succeed and reproduce the live dump bit for bit.",
+    note="Trusted: pl-shim lock model; the windows inside create_snapshot are delimited by its lock acquisitions (index.read(), manifest_lock).",
+)
+
 # properties not claimed (yet): id -> reason
 NOT_APPLICABLE = {}
 
